@@ -1,4 +1,7 @@
 /* cal <op> ... : vnacal_t / vnacal_new_t / parameters through the public API */
+#define _GNU_SOURCE
+#include <sys/mman.h>
+#include <unistd.h>
 #include "vh.h"
 
 #define NCAL 4
@@ -89,6 +92,33 @@ int vh_cal(void)
 	path = vh_parse_hexbytes(tok());
 	LIB(cal[c] = vnacal_load(path, vh_error_fn, NULL));
 	free(path);
+	res(cal[c] != NULL, 0);
+	return 0;
+    }
+    if (strcmp(op, "loadstr") == 0) {		/* cal loadstr c <hexcontent>: vnacal_load from an in-memory file */
+	const char *hx;
+	size_t n;
+	int fd;
+	char path[64];
+	c = (int)tl();
+	if (c < 0 || c >= NCAL || cal[c] != NULL) return -1;
+	hx = tok();
+	if (hx == NULL) return -1;
+	if (*hx == 'x') ++hx;
+	if (strcmp(hx, "-") == 0) hx = "";
+	n = strlen(hx) / 2;
+	fd = memfd_create("vh-cal", 0);
+	if (fd < 0) return -1;
+	for (size_t i = 0; i < n; ++i) {
+	    unsigned x;
+	    unsigned char b;
+	    sscanf(hx + 2 * i, "%2x", &x);
+	    b = (unsigned char)x;
+	    if (write(fd, &b, 1) != 1) { close(fd); return -1; }
+	}
+	snprintf(path, sizeof(path), "/proc/self/fd/%d", fd);
+	LIB(cal[c] = vnacal_load(path, vh_error_fn, NULL));
+	close(fd);
 	res(cal[c] != NULL, 0);
 	return 0;
     }
@@ -228,6 +258,22 @@ int vh_cal(void)
 	LIB(vnacal_free(cal[c]));
 	cal[c] = NULL;
 	res(true, 0);
+	return 0;
+    }
+    if (strcmp(op, "savestr") == 0) {		/* cal savestr c: vnacal_save into memory, content as hex */
+	int fd = memfd_create("vh-cal", 0), rc;
+	char path[64];
+	if (fd < 0) return -1;
+	snprintf(path, sizeof(path), "/proc/self/fd/%d", fd);
+	LIB(rc = vnacal_save(cal[c], path));
+	res(rc == 0, rc);
+	if (rc == 0) {
+	    unsigned char b;
+	    lseek(fd, 0, SEEK_SET);
+	    vh_out(" x");
+	    while (read(fd, &b, 1) == 1) vh_out("%02x", b);
+	}
+	close(fd);
 	return 0;
     }
     if (strcmp(op, "save") == 0) {
